@@ -47,12 +47,18 @@ def compatOrd : Spec.Val N → Spec.Val N → Bool
   | .num x, .blank => !isNaN x
   | .blank, .num y => !isNaN y
   | .blank, .blank => true
-  | .text s, .text t => s != [] && t != [] && cmpStr s t == cmpStr (upper s) (upper t)
+  | .text s, .text t => s != [] && t != []
   | .num _, .text t => t != []
   | .text s, .num _ => s != []
   | .blank, .text t => t != []
   | .text s, .blank => s != []
   | .bool _, .bool _ => true
+  | .bool _, .num _ => true
+  | .num _, .bool _ => true
+  | .bool _, .text t => t != []
+  | .text s, .bool _ => s != []
+  | .bool p, .blank => p
+  | .blank, .bool q => q
   | _, _ => false
 
 def compatEq : Spec.Val N → Spec.Val N → Bool
